@@ -1,4 +1,4 @@
-import MpVerif.C08.LemmasGen
+import MpVerif.C08.LemmasWalk
 /-!
 # C08 — property theorems
 
@@ -147,6 +147,24 @@ theorem C08_colsizes_follow (m : MatrixModel) (j : Nat) (hj : j < m.n) (hl : vpe
     (feedColumnSizes m).getD (vperm m j) 0 = m.A.index.count j := by
   unfold feedColumnSizes colSize
   rw [getD_map_range _ _ _ hl, vpermInv_vperm m hj]
+
+/-- the NL `k` segment omits the LAST position; its column size is nevertheless determined by what is written:
+the sizes at all positions sum to the number of Jacobian nonzeros of the header (`nzc`), so the last column has
+`nzc − Σ written sizes` entries — and that is the caller's count for the column placed last -/
+theorem C08_colsizes_last (m : MatrixModel) (ha : ∀ c ∈ m.A.index, c < m.n) (hn : 0 < m.n) (text : Bool) (flags : Nat) :
+    (feedColumnSizes m).sum + m.A.index.count (vpermInv m (m.n - 1)) = (header m text flags).nzc ∧
+    m.A.index.count (vpermInv m (m.n - 1)) = (header m text flags).nzc - (feedColumnSizes m).sum := by
+  have h1 := sum_over_positions m (fun j => m.A.index.count j)
+  rw [sum_count_range m.A.index m.n ha] at h1
+  have hsplit : List.range m.n = List.range (m.n - 1) ++ [m.n - 1] := by
+    have : m.n = (m.n - 1) + 1 := by omega
+    rw [this, List.range_succ]; simp
+  rw [hsplit, List.map_append, List.sum_append] at h1
+  simp only [List.map_cons, List.map_nil, List.sum_cons, List.sum_nil, Nat.add_zero] at h1
+  have hf : (feedColumnSizes m).sum = ((List.range (m.n - 1)).map (fun i => m.A.index.count (vpermInv m i))).sum := rfl
+  have hz : (header m text flags).nzc = m.A.index.length := rfl
+  rw [hf, hz]
+  omega
 
 /-! ## 4. Objective -/
 
@@ -401,6 +419,65 @@ theorem C08_gen_index_arithmetic (kind i invAt permAt : Nat) :
   unfold sufTarget primalTarget feedSufIndex
   rw [h1, h2]
   cases (kind % 4 == 0) <;> simp
+
+/-- the CSR row walk: the model's `qEntries` (used by `nlv`, `supp`, `feedObjExpr`, `computeObjValue`) is the fold of the
+GENERATED loop components of `ComputeObjValue` (`pos_end = num_nz; for rows descending { for (pos = start[i]; pos != pos_end;
+++pos) visit; pos_end = start[i] }`) -/
+theorem C08_gen_walk (m : MatrixModel) :
+    (qEntries m).map (fun e => (e.1, (e.2 : Int))) =
+      if m.Q.nnz = 0 then []
+      else outerLoop walk_ComputeObjValue_init walk_ComputeObjValue_next walk_ComputeObjValue_cond walk_ComputeObjValue_inc
+             m.Q.start m.n (walk_ComputeObjValue_posEnd0 m.Q.nnz) := by
+  unfold qEntries
+  split
+  · rfl
+  · exact walkDesc_eq_outerLoop m.Q.start m.n m.Q.nnz
+
+/-- the three other functions that walk the Hessian use the same five components -/
+theorem C08_gen_walk_same :
+    walk_functions = ["FillNonlinearVars", "FillObjNonzeros", "FeedObjExpression", "ComputeObjValue"] ∧
+    (walk_FillNonlinearVars_posEnd0 = walk_ComputeObjValue_posEnd0 ∧ walk_FillNonlinearVars_init = walk_ComputeObjValue_init ∧
+     walk_FillNonlinearVars_cond = walk_ComputeObjValue_cond ∧ walk_FillNonlinearVars_inc = walk_ComputeObjValue_inc ∧
+     walk_FillNonlinearVars_next = walk_ComputeObjValue_next) ∧
+    (walk_FillObjNonzeros_posEnd0 = walk_ComputeObjValue_posEnd0 ∧ walk_FillObjNonzeros_init = walk_ComputeObjValue_init ∧
+     walk_FillObjNonzeros_cond = walk_ComputeObjValue_cond ∧ walk_FillObjNonzeros_inc = walk_ComputeObjValue_inc ∧
+     walk_FillObjNonzeros_next = walk_ComputeObjValue_next) ∧
+    (walk_FeedObjExpression_posEnd0 = walk_ComputeObjValue_posEnd0 ∧ walk_FeedObjExpression_init = walk_ComputeObjValue_init ∧
+     walk_FeedObjExpression_cond = walk_ComputeObjValue_cond ∧ walk_FeedObjExpression_inc = walk_ComputeObjValue_inc ∧
+     walk_FeedObjExpression_next = walk_ComputeObjValue_next) := by
+  refine ⟨rfl, ⟨rfl, rfl, rfl, rfl, rfl⟩, ⟨rfl, rfl, rfl, rfl, rfl⟩, ⟨rfl, rfl, rfl, rfl, rfl⟩⟩
+
+/-- with nondecreasing row starts the generated inner loop stops by its own test `pos != pos_end` exactly at `pos_end`:
+any additional fuel changes nothing (so the fuel in `outerLoop` is not what ends the loop) -/
+theorem C08_gen_walk_terminates (s e g : Nat) (h : s ≤ e) :
+    innerLoop walk_ComputeObjValue_cond walk_ComputeObjValue_inc ((e - s) + g) s e =
+    innerLoop walk_ComputeObjValue_cond walk_ComputeObjValue_inc (e - s) s e :=
+  innerLoop_more_fuel (e - s) g s e (by omega)
+
+/-- `VPerm` / `VPermInv` after the GENERATED reverse-mapping loop: running `var_perm_[var_perm_[i].second].first = i` for `i`
+descending over the sorted array leaves, at caller index `j`, `first` = the model's `vperm m j` and `second` = the model's
+`vpermInv m j`; `VPerm` returns `.first`, `VPermInv` returns `.second` -/
+theorem C08_gen_vperm (m : MatrixModel) (j : Nat) (hj : j < m.n) :
+    ((revLoop (sortedPairs m) m.n).getD j (0, 0)).1 = (vperm m j : Int) ∧
+    ((revLoop (sortedPairs m) m.n).getD j (0, 0)).2 = vpermInv m j ∧
+    VPerm_field = "first" ∧ VPermInv_field = "second" ∧ revMap_field = "first" ∧
+    revMap_header = Expected.permuteLoop_header := by
+  have hS := revLoop_spec (order m) (order_nodup m) m.n (sortedPairs m) rfl (by rw [order_length]; exact Nat.le_refl _)
+  obtain ⟨h1, h2⟩ := hS
+  have hjS : j ∈ order m := (mem_order m j).mpr hj
+  have hjl : j < (order m).length := by rw [order_length]; exact hj
+  have hidx : (order m).idxOf j < m.n := vperm_lt m hj
+  refine ⟨?_, ?_, rfl, rfl, rfl, rfl⟩
+  · rw [h2 j hjS hjl, if_pos hidx]; rfl
+  · have hlen : j < (revLoop (sortedPairs m) m.n).length := by
+      have : ((revLoop (sortedPairs m) m.n).map Prod.snd).length = (order m).length := by rw [h1]
+      simp at this; omega
+    have : ((revLoop (sortedPairs m) m.n).map Prod.snd)[j]? = (order m)[j]? := by rw [h1]
+    rw [List.getElem?_map, List.getElem?_eq_getElem hlen, List.getElem?_eq_getElem hjl] at this
+    simp only [Option.map_some, Option.some.injEq] at this
+    unfold vpermInv
+    rw [getD_eq_getElem' _ _ hlen, getD_eq_getElem' _ _ hjl]
+    exact this
 
 end Gen
 
